@@ -57,6 +57,14 @@ class Ctx:
             self._dsn = Facts(os.path.join(d, "dropshot.json"), desugar=True)
         return self._dsn
 
+    @property
+    def epn(self):
+        """The normalised view of the dropshot_endpoint crate (see dsn)."""
+        if getattr(self, "_epn", None) is None:
+            d, _ = extract.ensure_facts(self.features)
+            self._epn = Facts(os.path.join(d, "dropshot_endpoint.json"), desugar=True)
+        return self._epn
+
     # ------------------------------------------------------------------ rule API
     def rule(self, rid, statement, floor=1):
         self.rules[rid] = statement
